@@ -84,6 +84,51 @@ def fmtcls(fmt_hex):
     return "no-year"
 
 
+def iso_week_year(y, m, d):
+    """ISO 8601 week-numbering year of a civil date (the year of the Thursday of its Monday-based week)"""
+    z = days_from_civil(y, m, d)
+    wd = (z + 3) % 7          # 1970-01-01 was a Thursday; Monday = 0
+    return civil_from_days(z - wd + 3)[0]
+
+
+def fmt_directives(fmt):
+    """conversion characters of the directives of a format string (flags - _ ^ skipped)"""
+    s = set()
+    i = 0
+    while i < len(fmt):
+        if fmt[i] == "%" and i + 1 < len(fmt):
+            j = i + 1
+            if fmt[j] in "-_^" and j + 1 < len(fmt):
+                j += 1
+            s.add(fmt[j])
+            i = j + 1
+        else:
+            i += 1
+    return s
+
+
+def unrepresentable_year(fmt, y, m, d):
+    """a year that the directives of `fmt` print for Date(y,m,d) and that no Date can hold, or None.
+    Only %G/%g can do that for a representable date: the ISO week-numbering year of the first days of
+    year -2^22 (or the last days of year 2^22-1) is the neighbouring, unrepresentable year.  Parsing
+    such a text has to build the ISO year first; the implementation packs it into a Date, which wraps
+    (the recorded no_wrap defect), so the failure belongs to that class and not to the directive."""
+    ds = fmt_directives(fmt)
+    if "G" in ds or "g" in ds:
+        g = iso_week_year(y, m, d)
+        if not MIN_YEAR <= g <= MAX_YEAR:
+            return g
+    return None
+
+
+def rt_key(prefix, cls, fmt, y, m, d):
+    """canonical key of a failed format/parse round trip of Date(y,m,d)"""
+    g = unrepresentable_year(fmt, y, m, d)
+    if g is not None:
+        return "no_wrap:iso-week-year-out-of-range", " (the date's ISO week-numbering year %d is not a representable year: the parser wraps it instead of computing the date or raising an error)" % g
+    return "%s:%s:year-%s" % (prefix, cls, ycls(y)), ""
+
+
 def keyfn(inp, obs, exp):
     """canonical class of a model/implementation disagreement"""
     f = inp.split()
@@ -109,6 +154,7 @@ def keyfn(inp, obs, exp):
 def oracle_dates(ctx, stream, ids, inputs, obs):
     """the property evaluated directly on the implementation's outputs"""
     n = 0
+    perkey = {}
     for i in ids:
         f = inputs[i].split()
         o = obs[i]
@@ -149,11 +195,13 @@ def oracle_dates(ctx, stream, ids, inputs, obs):
         elif op == "rt" and f[1] == "1":
             y, m, d = map(int, f[2:5])
             if o != "ok %d %d %d" % (y, m, d):
-                key = "rt:%s:year-%s" % (fmtcls(f[5]), ycls(y))
-                what = "Date(%d,%d,%d) formatted with %r parses back as %s" % (y, m, d, bytes.fromhex(f[5]).decode("latin-1"), o)
+                fs = bytes.fromhex(f[5]).decode("latin-1")
+                key, note = rt_key("rt", fmtcls(f[5]), fs, y, m, d)
+                what = "Date(%d,%d,%d) formatted with %r parses back as %s%s" % (y, m, d, fs, o, note)
         if key:
             n += 1
-            if n <= 500:
+            perkey[key] = perkey.get(key, 0) + 1
+            if perkey[key] <= 20:      # per key: a flood of one (known) class must not hide another key
                 ctx.fail(key, what, stream=stream, case=inputs[i], impl=o, model=None,
                          oracle="property evaluated on the implementation's output (independent civil arithmetic)")
     return n
@@ -161,6 +209,7 @@ def oracle_dates(ctx, stream, ids, inputs, obs):
 
 def oracle_rt(ctx, stream, ids, inputs, obs):
     n = 0
+    perkey = {}
     for i in ids:
         f = inputs[i].split()
         o = obs[i]
@@ -168,8 +217,9 @@ def oracle_rt(ctx, stream, ids, inputs, obs):
         if f[0] == "rt2":
             y, m, d = map(int, f[2:5])
             if o != "ok %d %d %d" % (y, m, d):
-                key = "rt2:%s:year-%s" % (f[1], ycls(y))
-                what = "Date(%d,%d,%d) formatted with %r parses back as %s" % (y, m, d, bytes.fromhex(f[5]).decode("latin-1"), o)
+                fs = bytes.fromhex(f[5]).decode("latin-1")
+                key, note = rt_key("rt2", f[1], fs, y, m, d)
+                what = "Date(%d,%d,%d) formatted with %r parses back as %s%s" % (y, m, d, fs, o, note)
         elif f[0] == "spanstr":
             if o != "same":
                 key = "spanstr:%s" % o.split()[0]
@@ -180,7 +230,8 @@ def oracle_rt(ctx, stream, ids, inputs, obs):
                 what = "DateTime(%s) to_string/parse: %s" % (" ".join(f[1:]), o)
         if key:
             n += 1
-            if n <= 500:
+            perkey[key] = perkey.get(key, 0) + 1
+            if perkey[key] <= 20:
                 ctx.fail(key, what, stream=stream, case=inputs[i], impl=o, model=None,
                          oracle="round trip evaluated on the implementation only")
     return n
